@@ -580,6 +580,8 @@ def check_selection_table(ctx, rid, which=("format", "input")):
             (("some.b/x.a", "load_one", None), "alpha"), (("/tmp/x.b", "load_many", None), "beta"),
             (("x.unknown", "load_one", None), E), (("a", "load_one", None), E),
             (("x.a", "load_one", "beta"), "beta"), (("x.a", "load_many", "alpha"), E),
+            # an explicit format is final: when it lacks the feature, the file name is not consulted as a fallback
+            (("x.b", "load_many", "alpha"), E), (("x.shared", "load_many", "alpha"), E), (("x.a", "dump_one", "beta"), E),
             (("x.a", "load_one", "nope"), E), (("x.q", "dump_one", "gamma"), "gamma"), (("x.q", "load_one", "gamma"), E),
         ]
         bad = None
